@@ -24,15 +24,18 @@
    returns a response without its sequence id).  The traces below record the ids
    the CLIENT used, which is what the property speaks about.
 
-   Tie to the code: no suite evaluates drun / brun.  Suite dispatch evaluates
-   Model.run_policy on the case harness/cmd/c17/ident.go:dispatchAsPolicy builds
-   from what the real dispatcher did: that Go function is the mirror of
-   [map (dev_gev KeySequence)] (event of sequence Seq, opening iff the request's
-   ID = SequenceID, status of the remedy or of the provider), written in Go, not
-   evaluated in Coq — the front-end step itself is TESTED (differential suite +
-   monitor), the Coq side proves only drun KeySequence = grun o map dev_gev
-   (drun_keyseq).  Suite flowbody evaluates Model.run_flowproc; bodies exist on
-   the Go side only (brun_keep: with KeepSeq the body is the identity).
+   Tie to the code.  Suite dispatch evaluates [run_dispatch] (end of this file)
+   on RAW cases: per transaction the transaction id, the sequence id header if
+   present, whether the real dispatcher answered the request itself, the
+   provider's status otherwise.  The identification step — which sequence, opening
+   or not, which status — is computed HERE ([dx_seq], [dev_gev KeySequence]) and
+   the policy run on it is compared with what the real dispatcher answered;
+   [run_dispatch_accepted]: an accepted case is a run of [drun KeySequence] on
+   the raw transactions.  harness/cmd/c17/ident.go:dispatchAsPolicy / identify
+   remain as the Go mirror that feeds the monitor; the case carries the mirror's
+   result and run_dispatch rejects the case when it differs from the model's.
+   No suite evaluates brun: suite flowbody evaluates Model.run_flowproc; bodies
+   exist on the Go side only (brun_keep: with KeepSeq the body is the identity).
 
    [no_seq] = 0 is also a legal client id: flow_body_bound_keep holds for every
    s including 0 (no hypothesis s <> no_seq is needed, KeepSeq never produces
@@ -194,4 +197,251 @@ Lemma flow_body_bound_drop_refuted : ~ flow_body_bound_with DropSeqOnDecodeError
 Proof.
   intro H. specialize (H (fun _ => 2) body_witness 0 1).
   vm_compute in H. destruct H as [_ H]. apply H. reflexivity.
+Qed.
+
+(* ================================================================== *)
+(* POLICY MODE: the dispatch suite evaluates the front-end in Coq      *)
+
+(* The RAW case of suite dispatch: the transactions as HAProxy hands them to
+   the gateway — transaction id (unique-id), the x-lunar-sequence-id header of
+   the request if there is one — and, per transaction, what the harness
+   observed at the real dispatcher: whether the gateway answered the request
+   itself (return_early_response), else the status of the provider's response.
+   Nothing in it says which sequence is charged or whether the response opens
+   it: that is derived HERE, by [dx_seq] (rootfs/etc/haproxy/haproxy.cfg:90-91
+   + spoe/lunar.conf: sequence_id = the header when present, else the unique-id
+   of the transaction) and by [dev_gev KeySequence] above (the early response
+   gets the ids of the request; a provider response is handed over as it is,
+   opening iff ID = SequenceID, messages.model.go IsNewSequence). *)
+Record dtxn := {
+  dxId : Z;                 (* transaction id *)
+  dxSeqHdr : option Z;      (* sequence id header of the request; None = absent *)
+  dxEarly : bool;           (* observed: answered by the gateway itself *)
+  dxProv : Z                (* status of the provider's response (used when not early) *)
+}.
+
+Record case_dispatch := {
+  dcAttempts : Z; dcCooldown : Z; dcMult : Z; dcRanges : list (Z * Z);
+  dcEarlyStatus : Z;                   (* status the request-side remedy is configured to answer *)
+  dcTxns : list dtxn;
+  dcMirror : list (Z * bool * Z);      (* cross-check only: (sequence, opening, status) per transaction as
+                                          harness/cmd/c17/ident.go:dispatchAsPolicy derives them for the monitor *)
+  dcOuts : list Z                      (* observed, per transaction: 0 retry | 1 noop | 2 anything else *)
+}.
+
+Definition dc_cfg (k : case_dispatch) : pcfg :=
+  {| pAttempts := dcAttempts k; pCooldown := dcCooldown k; pMult := dcMult k; pRanges := dcRanges k |}.
+
+Definition dx_seq (t : dtxn) : Z :=
+  match dxSeqHdr t with Some s => s | None => dxId t end.
+
+Definition dx_status (early_status : Z) (t : dtxn) : Z :=
+  if dxEarly t then early_status else dxProv t.
+
+(* the transaction in the vocabulary of the dispatcher machine above; [vis] =
+   what the cache will answer the lookup (not the dispatcher's business) *)
+Definition dx_dev (early_status : Z) (vis : bool) (t : dtxn) : dev :=
+  if dxEarly t then DEarly (dxId t) (dx_seq t) early_status vis
+  else DProv (GResp (dx_seq t) (dxId t =? dx_seq t) (dxProv t) vis).
+
+(* the response the retry remedy is given = Ident's own key derivation *)
+Definition gev_resp (g : gev) : list (Z * bool * Z) :=
+  match g with GResp s n st _ => [(s, n, st)] | GDrop _ => [] end.
+
+Definition dx_ident (early_status : Z) (t : dtxn) : list (Z * bool * Z) :=
+  gev_resp (dev_gev KeySequence (dx_dev early_status true t)).
+
+Definition resp_tev (x : Z * bool * Z) : tev := TResp (fst (fst x)) (snd (fst x)) (snd x).
+
+Definition dc_ident (k : case_dispatch) : list (Z * bool * Z) :=
+  flat_map (dx_ident (dcEarlyStatus k)) (dcTxns k).
+
+(* the policy case the raw case amounts to: clock at 0 and not moving (the
+   suite parks the cache's sleepers), one TResp per transaction *)
+Definition dispatch_policy_case (k : case_dispatch) : case_policy :=
+  ((dcAttempts k, dcCooldown k, dcMult k, dcRanges k), 0, map resp_tev (dc_ident k), dcOuts k).
+
+Fixpoint eq_ident (a b : list (Z * bool * Z)) : bool :=
+  match a, b with
+  | [], [] => true
+  | (s, n, st) :: a', (s', n', st') :: b' =>
+      (s =? s') && Bool.eqb n n' && (st =? st') && eq_ident a' b'
+  | _, _ => false
+  end.
+
+(* None iff the real dispatcher answered every transaction as the policy run
+   on the identified responses does AND the Go mirror identified them alike *)
+Definition run_dispatch (k : case_dispatch) : option (list (Z * bool * Z) * list Z) :=
+  let mouts := map (fun x => pout_code (snd x))
+                   (snd (trun (dc_cfg k) 0 (map resp_tev (dc_ident k)))) in
+  if eq_ident (dc_ident k) (dcMirror k) && eq_zs mouts (dcOuts k) then None
+  else Some (dc_ident k, mouts).
+
+(* ---- an accepted case is a run of the dispatcher machine [drun] ---- *)
+
+(* the dispatcher history of the case: every transaction with the visibility
+   the (unmoving) clock of the timed machine gives its lookup *)
+Fixpoint dx_devs (c : pcfg) (es : Z) (t : tstate) (txns : list dtxn) : list dev :=
+  match txns with
+  | [] => []
+  | x :: r =>
+      dx_dev es (t_vis t (dx_seq x)) x ::
+      dx_devs c es (fst (tstep c t (TResp (dx_seq x) (dxId x =? dx_seq x) (dx_status es x)))) r
+  end.
+
+Definition dispatch_history (k : case_dispatch) : list dev :=
+  dx_devs (dc_cfg k) (dcEarlyStatus k) (tinit 0) (dcTxns k).
+
+(* how the client identifies a transaction: sequence, opening or not *)
+Definition dx_client (es : Z) (t : dtxn) : Z * bool * Z :=
+  (dx_seq t, dxId t =? dx_seq t, dx_status es t).
+
+Lemma dx_ident_client : forall es t, dx_ident es t = [dx_client es t].
+Proof.
+  intros es t. unfold dx_ident, dx_dev, dx_client, dx_status.
+  destruct (dxEarly t); reflexivity.
+Qed.
+
+Lemma dc_ident_client : forall k, dc_ident k = map (dx_client (dcEarlyStatus k)) (dcTxns k).
+Proof.
+  intro k. unfold dc_ident. induction (dcTxns k) as [| t r IH]; [reflexivity |].
+  cbn [flat_map map]. rewrite dx_ident_client, IH. reflexivity.
+Qed.
+
+Lemma dx_devs_tg : forall c es txns t,
+  map (dev_gev KeySequence) (dx_devs c es t txns) =
+  tg_from c t (map resp_tev (map (dx_client es) txns)).
+Proof.
+  intros c es txns. induction txns as [| x r IH]; intro t; [reflexivity |].
+  cbn [dx_devs map tg_from resp_tev dx_client fst snd t_to_g app].
+  rewrite IH. f_equal.
+  unfold dx_dev, dx_status. destruct (dxEarly x); reflexivity.
+Qed.
+
+Lemma dev_label_keyseq : forall c st e,
+  map (dev_label e) (snd (gstep c st (dev_gev KeySequence e))) =
+  snd (gstep c st (dev_gev KeySequence e)).
+Proof.
+  intros c st e. destruct e as [id seq status vis | g]; cbn [dev_gev].
+  - reflexivity.
+  - cbn [dev_label]. apply map_id.
+Qed.
+
+Lemma eq_zs_eq : forall a b, eq_zs a b = true -> a = b.
+Proof.
+  induction a as [| x a IH]; destruct b as [| y b]; cbn [eq_zs]; intro H;
+    try reflexivity; try discriminate.
+  apply andb_prop in H. destruct H as [H1 H2]. apply Z.eqb_eq in H1. subst y.
+  f_equal. now apply IH.
+Qed.
+
+Lemma eq_ident_eq : forall a b, eq_ident a b = true -> a = b.
+Proof.
+  induction a as [| [[s n] st] a IH]; destruct b as [| [[s' n'] st'] b]; cbn [eq_ident]; intro H;
+    try reflexivity; try discriminate.
+  apply andb_prop in H. destruct H as [H H4]. apply andb_prop in H. destruct H as [H H3].
+  apply andb_prop in H. destruct H as [H1 H2].
+  apply Z.eqb_eq in H1. apply Z.eqb_eq in H3. apply Bool.eqb_prop in H2. subst.
+  f_equal. now apply IH.
+Qed.
+
+(* the trace of the timed run on the identified responses IS the trace of
+   [drun KeySequence] on the dispatcher history of the case *)
+Lemma dispatch_trace : forall k,
+  snd (trun (dc_cfg k) 0 (map resp_tev (dc_ident k))) =
+  snd (drun KeySequence (dc_cfg k) (dispatch_history k)).
+Proof.
+  intro k. rewrite drun_keyseq. unfold dispatch_history. rewrite dx_devs_tg, dc_ident_client.
+  unfold grun, grun_from, trun.
+  change (@nil (Z * (Z * Z))) with (tStore (tinit 0)).
+  rewrite tfold_is_gfold. reflexivity.
+Qed.
+
+(* the responses of a timed run on TResp events only carry the ids of the events *)
+Lemma tstep_resp_shape : forall c t s n st,
+  exists t' o, tstep c t (TResp s n st) = (t', [(s, n, st, o)]).
+Proof. intros. cbn [tstep]. eexists. eexists. reflexivity. Qed.
+
+Lemma trun_resp_ids : forall c l t acc,
+  map (fun x => (r_seq x, r_new x, r_status x))
+      (snd (fold_left (tstep_acc c) (map resp_tev l) (t, acc))) =
+  map (fun x => (r_seq x, r_new x, r_status x)) acc ++ l.
+Proof.
+  intros c l. induction l as [| [[s n] st] l IH]; intros t acc.
+  - cbn [map fold_left snd]. now rewrite app_nil_r.
+  - cbn [map fold_left resp_tev fst snd].
+    destruct (tstep_resp_shape c t s n st) as [t' [o E]].
+    unfold tstep_acc at 2. unfold resp_tev at 2. cbn [fst snd]. rewrite E.
+    rewrite (IH t' (acc ++ [(s, n, st, o)])).
+    rewrite map_app, <- app_assoc. reflexivity.
+Qed.
+
+Lemma run_dispatch_accepted : forall k,
+  run_dispatch k = None ->
+  dcMirror k = dc_ident k /\
+  dcOuts k = map (fun x => pout_code (r_out x)) (snd (drun KeySequence (dc_cfg k) (dispatch_history k))) /\
+  map (fun x => (r_seq x, r_new x, r_status x)) (snd (drun KeySequence (dc_cfg k) (dispatch_history k))) =
+    map (dx_client (dcEarlyStatus k)) (dcTxns k).
+Proof.
+  intros k H. unfold run_dispatch in H.
+  destruct (eq_ident (dc_ident k) (dcMirror k) && eq_zs _ (dcOuts k)) eqn:E; [| discriminate].
+  apply andb_prop in E. destruct E as [E1 E2].
+  apply eq_ident_eq in E1. apply eq_zs_eq in E2.
+  rewrite <- dispatch_trace. split; [now symmetry | split].
+  - rewrite <- E2. reflexivity.
+  - rewrite <- dc_ident_client. unfold trun. rewrite trun_resp_ids. reflexivity.
+Qed.
+
+Lemma run_dispatch_policy : forall k,
+  run_dispatch k = None -> run_policy (dispatch_policy_case k) = None.
+Proof.
+  intros k H. unfold run_dispatch in H.
+  destruct (eq_ident (dc_ident k) (dcMirror k) && eq_zs _ (dcOuts k)) eqn:E; [| discriminate].
+  apply andb_prop in E. destruct E as [_ E2].
+  unfold run_policy, dispatch_policy_case. cbv beta iota.
+  change (Build_pcfg (dcAttempts k) (dcCooldown k) (dcMult k) (dcRanges k)) with (dc_cfg k).
+  rewrite E2. reflexivity.
+Qed.
+
+(* ---- the bound, in the vocabulary of the raw case ---- *)
+
+(* retries (answer code 0) of the transactions of sequence [s] since, and
+   including, the latest transaction that opened it (its own id is [s]) *)
+Definition raw_seg_step (s : Z) (acc : Z) (x : dtxn * Z) : Z :=
+  if dx_seq (fst x) =? s
+  then (if dxId (fst x) =? dx_seq (fst x) then 0 else acc) + (if snd x =? 0 then 1 else 0)
+  else acc.
+
+Definition raw_seg_retries (s : Z) (l : list (dtxn * Z)) : Z := fold_left (raw_seg_step s) l 0.
+
+Lemma raw_seg_is_seg : forall es s txns tr,
+  map (fun x => (r_seq x, r_new x, r_status x)) tr = map (dx_client es) txns ->
+  forall n acc,
+  fold_left (raw_seg_step s) (firstn n (combine txns (map (fun x => pout_code (r_out x)) tr))) acc =
+  fold_left (seg_step s) (firstn n tr) acc.
+Proof.
+  intros es s txns. induction txns as [| t r IH]; intros tr H n acc.
+  - destruct tr; [| discriminate]. destruct n; reflexivity.
+  - destruct tr as [| x tr]; [discriminate |].
+    cbn [map] in H. injection H as Hs Hn Hst Hr.
+    destruct n as [| n]; [reflexivity |].
+    cbn [map combine firstn fold_left].
+    rewrite (IH tr Hr n). f_equal.
+    unfold raw_seg_step, seg_step. cbn [fst snd]. rewrite Hs, Hn.
+    destruct (r_out x); reflexivity.
+Qed.
+
+Lemma run_dispatch_bound : forall k,
+  run_dispatch k = None ->
+  forall s n,
+    0 <= raw_seg_retries s (firstn n (combine (dcTxns k) (dcOuts k))) <= Z.max 0 (dcAttempts k).
+Proof.
+  intros k H s n. destruct (run_dispatch_accepted k H) as [_ [Ho Hi]].
+  unfold raw_seg_retries. rewrite Ho.
+  rewrite (raw_seg_is_seg (dcEarlyStatus k) s _ _ Hi n 0).
+  change (dcAttempts k) with (pAttempts (dc_cfg k)).
+  apply (dispatch_bound_keyseq (dc_cfg k) (dispatch_history k) s
+           (firstn n (snd (drun KeySequence (dc_cfg k) (dispatch_history k))))
+           (skipn n (snd (drun KeySequence (dc_cfg k) (dispatch_history k))))).
+  symmetry. apply firstn_skipn.
 Qed.
